@@ -254,16 +254,19 @@ def vacuum(session, model, yield_per=1000):
         .order_by(option(version_cls, 'transaction_column_name'))
     ).yield_per(yield_per)
 
-    primary_key_col = sa.inspection.inspect(model).primary_key[0].name
+    primary_key_cols = list(get_primary_keys(model).keys())
 
     for version in query:
-        version_id = getattr(version, primary_key_col)
+        version_id = tuple(
+            getattr(version, column_key) for column_key in primary_key_cols
+        )
         if versions[version_id]:
             prev_version = versions[version_id][-1]
             if naturally_equivalent(prev_version, version):
                 session.delete(version)
-        else:
-            versions[version_id].append(version)
+                continue
+        # remember the last surviving version of this entity
+        versions[version_id] = [version]
 
 
 def is_table_column(column):
